@@ -58,6 +58,7 @@ pub fn standard_plan(tier: Tier, scale: u64) -> Plan {
             }
         }
     }
+    families.push((Box::new(BothCastleFamily), tier.pick(1, 2)));
     Plan {
         tree_budget: tier.pick(40_000, 2_500_000) / scale,
         depth_cap: tier.pick(5, 7),
